@@ -28,6 +28,7 @@ RULE = ("sequences of all classes incl. length 1-3, one charge class, no neutral
         "differs from the parent")
 RULE += ("; added after the mutation rounds: parents whose raw ratio lies in (1,1.1) with kappa() called before the move; the first cases of every shard are judged again at its end")
 RULE += ("; round 5: frozen containers with entries that are no positions (negative, at or beyond the end) for the shuffles")
+RULE += ("; round 6: parents written in the reduced charge alphabet (+, -, 0) for the backend shuffle and swaps")
 EXHAUSTIVE = {"quick": False, "thorough": False}
 ASSUMPTIONS = [
     "frozen positions are 0-based indices (as the backend moves and the WL freeze-file define them)",
@@ -260,7 +261,12 @@ def judge(case, rep, S):
                 rep.cnt("no_result:" + move)
                 continue
             except Exception as e:
-                if move in MUST_SUCCEED:
+                # the block and cluster moves may decline (the library's own SequenceException: not enough charged residues, no
+                # arrangement with another delta found); a NameError / AttributeError / AssertionError ... is a crash, not an answer
+                # (on very short chains the unchanged block move also declines with a ValueError from its block-size draw)
+                crash = isinstance(e, (NameError, AttributeError, ImportError, AssertionError, RecursionError, MemoryError, SyntaxError))
+                declined = move not in MUST_SUCCEED and not crash
+                if not declined:
                     rep.viol("move_raised", "%s on %s (frozen %r) raised %s: %s" % (move, psnap[0], frozen, type(e).__name__, e),
                              sig={"move": move, "exception": type(e).__name__})
                     return
